@@ -31,6 +31,7 @@ props! {
     c14 => "C14",
     c17 => "C17",
     c19 => "C19",
+    c20 => "C20",
 }
 
 /// property-specific child-process sub-commands
